@@ -24,11 +24,11 @@ ASSUMPTIONS = ['equality is judged on the public fingerprint (values, dtype kind
                'independence is probed by changing a data cell, a stored range entry (through the list range() hands '
                'out) and a text entry on one side and re-reading the other']
 BUDGET = {
-    'quick': dict(examples=2400, time_s=300),
+    'quick': dict(examples=4000, time_s=300),
     'thorough': dict(examples=80000, time_s=2400),
 }
 
-OPS = ['cols', 'rows', 'to_rfi', 'to_mef', 'start_end', 'high_low']
+OPS = ['cols', 'cols', 'rows', 'to_rfi', 'to_mef', 'start_end', 'high_low']
 DUPS = ['copy', 'copy.copy', 'deepcopy', 'view'] + ['pickle%d' % p for p in range(6)]
 
 
